@@ -260,6 +260,25 @@ fn extra_names() -> Vec<String> {
             v.push(s);
         }
     }
+    // all names of <= 4 characters over {. / \ and three characters that are ordinary in a component but that something on the
+    // way might take for ignorable: a control character, a space, DEL} (a component is dots only if every character is a dot)
+    let al2 = ['.', '/', '\\', '\u{1}', ' ', '\u{7f}'];
+    for n in 2..=4u32 {
+        for i in 0..6u64.pow(n) {
+            let mut s = String::new();
+            let mut j = i;
+            for _ in 0..n {
+                s.push(al2[(j % 6) as usize]);
+                j /= 6;
+            }
+            if s.contains(|c| c == '\u{1}' || c == ' ' || c == '\u{7f}') {
+                v.push(s);
+            }
+        }
+    }
+    for s in ["\u{1}../\u{1}../x", "..\u{1}/..\u{1}/x", " ../ ../x", "../\u{7f}..", "a/\t../\t../\t../x", "\u{200b}../x", "\r../x", "..\n/x"] {
+        v.push(s.to_string());
+    }
     for s in ["C:", "C:\\a", "C:/a", "c:..\\x", "//server/share", "\\\\server\\share\\x", "\\\\?\\C:\\x", "a/b/../../..", "a/./b/../..", "..a", "a..", "...", ".../x", "a/.../..", "~", "~/x"] {
         v.push(s.to_string());
     }
